@@ -10,7 +10,8 @@ from typing import List
 
 from ..core import rule
 from ..prov import Analysis, BOT, Domain, flat, join
-from ..program import AnalysisError, dotted, src, walk_local
+from ..program import AnalysisError, dotted, src
+from ..core import walk_local  # inline-aware
 from .common import where
 
 A = lambda *xs: frozenset(xs)  # noqa: E731
